@@ -50,7 +50,7 @@ ASSUMPTIONS = [
     "empty input is outside the domain (every cubed operation has >= 1 task); inputs are distinct",
     "nothing requires a backup to be launched: an input whose only submission exhausts its retries must raise; a raise for input i "
     "is judged legitimate iff no submission of i made so far succeeded or is still pending and scripted to succeed",
-    "tier B: threads executor only, retries 0..2 (option, keyword or default), one faulted chunk key that exactly one task touches; a watchdog expiry is "
+    "tier B: threads executor only, compute() called plainly or from inside a running event loop, retries 0..2 (option, keyword or default), one faulted chunk key that exactly one task touches; a watchdog expiry is "
     "counted as 'inconclusive', never as a violation",
 ]
 
@@ -608,8 +608,19 @@ def check_fault(case) -> Outcome:
         ckw["retries"] = rt
     labels = {f"B:prog={case['prog']}", f"B:op={case['op']}", f"B:f={case['f']}", f"B:optimize={int(og)}", f"B:retries={rt}:via={via}"}
 
+    in_loop = bool(case.get("in_loop"))
+    labels.add(f"B:in-running-loop={int(in_loop)}")
+
     def compute(cbs=None):
         ex = create_executor("threads", dict(opts))
+        if in_loop:
+            # compute() called from code that already runs inside an event loop (a notebook cell, an async application)
+            import asyncio
+
+            async def main():
+                return arr.compute(executor=ex, optimize_graph=og, callbacks=cbs, **ckw)
+
+            return asyncio.run(main())
         return arr.compute(executor=ex, optimize_graph=og, callbacks=cbs, **ckw)
 
     # discovery run (fault-free) on the same lazy array => same array names / keys in the faulted run
@@ -692,6 +703,7 @@ def fault_cases():
             "retries_via": via,
             "optimize_graph": draw(st.booleans()),
             "batch_size": draw(st.sampled_from([None, None, 2])),
+            "in_loop": draw(st.sampled_from([False, False, True])),
         }
 
     return gen()
